@@ -56,6 +56,7 @@ func SpecHashSlot(key string) uint16 {
 //@ func Crc16
 //@   arith bv
 //@   properties C11 C18
+//@   replay digest_crc
 //@   nopanic
 //@   opaque SpecCrc16Step
 //@   ensures crc_spec: result == SpecCrc16(buf, len(buf))
@@ -91,6 +92,7 @@ func SpecCrc64(s string, n int, init uint64) uint64 {
 //@ func digest.update
 //@   arith bv
 //@   properties C03 C04
+//@   replay digest_crc
 //@   nopanic
 //@   opaque SpecCrc64Step
 //@   requires nonnil: d != nil
